@@ -169,7 +169,7 @@ def add_species_rule(r, m, allow_ode=False, existing_target=None):
 
 def sim_op(r, shadow, modes=SIM_MODES):
     mode = r.choice(modes)
-    npts = r.choice([3, 5, 8])
+    npts = r.choice([3, 4, 5, 6, 7, 8, 9])
     lam = max(netgen.initial_lambda(shadow), 0.3)
     horizon = netgen.cap_horizon(shadow, r.choice([3, 15, 60]) / lam, max_events=1500)
     k = max(1, min(64 * 10, int(round(horizon / (npts - 1) * 64))))
@@ -830,7 +830,9 @@ class Machine:
             edited.set_species({s: v})
             delta = ("species", s, v)
         elif how == "add_reaction" and plain:
-            rx = {"reactants": [plain[0]], "products": [], "type": "massaction", "pd": {"k": 0.37}, "delay": None}
+            # (a producing reaction: a consuming one could drive a marker species of a LATER generated delayed reaction
+            # negative - out of domain, where bioscrape may not terminate or crash)
+            rx = {"reactants": [], "products": [plain[0]], "type": "massaction", "pd": {"k": 0.37}, "delay": None}
             edited.create_reaction(*rm.reaction_tuple(rx))
             edited.py_initialize()
             delta = ("reaction", rx)
